@@ -100,6 +100,68 @@ def check_compose(case):
     return fails, ("compose", len(x), a, b)
 
 
+@kind("repeat-narrow-int")
+def check_narrow_int(case):
+    """integer abscissae of a narrow dtype near its maximum: repeating must not wrap around"""
+    from traffic_weaver import Weaver
+    from traffic_weaver.process import repeat
+    dt, x, r = case["dtype"], case["x"], case["r"]
+    y = [float(i % 3) for i in range(len(x))]
+    fails = []
+    for path in ("process", "weaver", "weaver-append"):
+        xa = np.array(x, dtype=dt)
+        try:
+            if path == "process":
+                gx, gy = repeat(xa, np.array(y), r)
+            else:
+                wv = Weaver(xa, np.array(y))
+                if path == "weaver-append":
+                    wv.append_one_sample()
+                wv.repeat(r)
+                gx, gy = wv.get()
+        except Exception as e:  # noqa
+            fails.append(fail("raised", {"exception": repr(e)}, {"path": path, "exc": type(e).__name__}))
+            continue
+        base = [int(v) for v in x] + ([2 * int(x[-1]) - int(x[-2])] if path == "weaver-append" else [])
+        period = (base[-1] - base[0]) + (base[-1] - base[-2])
+        exp = [v + c * period for c in range(r) for v in base]
+        if [int(round(float(v))) for v in gx] != exp or any(float(b) <= float(a) for a, b in zip(gx[:-1], gx[1:])):
+            fails.append(fail("narrow-integer-abscissae-wrapped", {"dtype": dt, "observed": gx, "expected": exp}, {"path": path, "dtype": dt}))
+    return fails, (dt, len(x), r)
+
+
+REPEAT_HIST_OPS = [("trend", "half-t", False), ("shift_x", 1.0), ("scale_y", 2.0), ("repeat", 2), ("repeat", 3), ("append", False),
+                   ("truncate_by_index", 1, None), ("smooth", 0.5), ("restore_original",), ("noise", "scalar")]
+
+
+@kind("repeat-in-state")
+def check_repeat_in_state(case):
+    """Weaver.repeat in ANY state tiles the CURRENT series"""
+    import copy
+    from checks import weaverops as WO
+    r = WO.Runner(WO.INITS[case["init"]])
+    for op in case["ops"]:
+        op = tuple(op)
+        if r.concretize(op) is None:
+            return [], ("skipped",)
+        r.apply(op)
+    gx, gy = r.wv.get()
+    fx, fy = [float(v) for v in gx], [float(v) for v in gy]
+    if len(fx) * case["r"] > 200 or len(fx) < 2:
+        return [], ("skipped",)
+    w = copy.deepcopy(r.wv).repeat(case["r"])
+    ox, oy = [float(v) for v in w.get()[0]], [float(v) for v in w.get()[1]]
+    period = (fx[-1] - fx[0]) + (fx[-1] - fx[-2])
+    ex = [v + c * period for c in range(case["r"]) for v in fx]
+    fails = []
+    import math
+    tol = 8 * case["r"] * math.ulp(max(abs(ex[-1]), abs(ex[0]), 1.0))
+    if oy != fy * case["r"] or len(ox) != len(ex) or any(abs(a - b) > tol for a, b in zip(ox, ex)) or ox[:len(fx)] != fx:
+        fails.append(fail("repeat-of-current-series", {"observed_y": oy, "expected_y": fy * case["r"], "observed_x": ox, "expected_x": ex},
+                          {"path": "weaver-history"}))
+    return fails, (case["init"], tuple(tuple(o) for o in case["ops"]), case["r"])
+
+
 def harnesses(tier, seed):
     quick = tier == "quick"
     grids = [g for k in range(2, (5 if quick else 6) + 1) for g in A.grids(7, k)]
@@ -129,4 +191,21 @@ def harnesses(tier, seed):
         if len(g) == 3 and iname == "id" and path == "process" and dtype == "float64" and not as_list:
             ctx.sample({"x": x, "y": y, "r": "1..12", "pairs": "ab<=12"})
 
-    return [{"name": "repeat", "body": body}]
+    def narrow_body(ctx):
+        dt, x = ctx.choose([("int32", [2000000000 + 3600 * i for i in (0, 1, 3, 4)]), ("int32", [2 ** 31 - 20, 2 ** 31 - 12, 2 ** 31 - 9]),
+                            ("uint8", list(range(0, 100, 7))), ("int16", [32000, 32100, 32300, 32400]), ("int8", [100, 105, 107]),
+                            ("uint16", [65000, 65100, 65300])], "series")
+        for r in range(1, 13):
+            judge(ctx, check_narrow_int, {"dtype": dt, "x": x, "r": r}, calls=3, bulk=True, nontrivial=lambda sg: sg[2] > 1)
+
+    from checks import weaverops as WO
+
+    def state_body(ctx):
+        ii = ctx.choose([0, 1, 2, 3], "init")
+        ops = [ctx.choose(REPEAT_HIST_OPS, "op%d" % d) for d in range(2 if quick else 3)]
+        for r in (2, 3):
+            judge(ctx, check_repeat_in_state, {"init": ii, "ops": [list(o) for o in ops], "r": r}, calls=2,
+                  nontrivial=lambda sg: sg[0] != "skipped")
+
+    return [{"name": "repeat", "body": body}, {"name": "narrow-integer-abscissae", "body": narrow_body},
+            {"name": "repeat-in-every-state", "body": state_body}]
